@@ -107,7 +107,8 @@ def run(case: dict, lean: Lean) -> Outcome:
         from lenskit.basic.random import RandomSelector
         from lenskit.stochastic import StochasticTopNRanker
         from lenskit.data import ItemList
-        il = ItemList(item_ids=[int(i) for i in ds.items.ids()], scores=np.linspace(0.5, 3.0, ds.item_count)); users = [int(u) for u in ds.users.ids()][:6]
+        # user identifiers of every kind a deployment has: ordinary ones, zero, the empty string, text
+        il = ItemList(item_ids=[int(i) for i in ds.items.ids()], scores=np.linspace(0.5, 3.0, ds.item_count)); users = [int(u) for u in ds.users.ids()][:4] + [0, "", "u-7", 1]
         r = random.Random(seed)
         for mk in (lambda: RandomSelector(n=3, rng=(seed, "user")), lambda: StochasticTopNRanker(n=3, rng=(seed, "user"))):
             a = mk(); first = {u: [int(i) for i in a(il, query=u).ids()] for u in users}
